@@ -30,6 +30,8 @@ for d in sorted(glob.glob(root + '/*/')):
         "detected_by": sorted(k for k, v in caught.items() if v["exit"] == 1),
         "notes": am.get('note') or am.get('demo_note'),
     }
+    if os.path.exists(d + 'UNDETECTED'):
+        meta["undetected_documented_limit"] = open(d + 'UNDETECTED').read().strip()
     extra = d + 'extra_notes.txt'
     if os.path.exists(extra):
         meta["history"] = open(extra).read().strip()
